@@ -106,3 +106,10 @@ Section Corollaries.
     simpl. f_equal. unfold nleaves. rewrite Z2Nat.id by lia. f_equal. lia.
   Qed.
 End Corollaries.
+
+From ScV Require Import Gen.Macros C18.MacroProofs.
+Lemma maxlevel_generated P : 2 <= P <= 2 ^ 31 -> w_sc_log2_32 (P - 1) + 1 = maxlevel P.
+Proof.
+  intros HP. unfold maxlevel. destruct (P <=? 1) eqn:E; [lia|].
+  rewrite log2_32_correct; [reflexivity|]. lia.
+Qed.
